@@ -197,6 +197,19 @@ def special_family():
     # a class referenced by class but not declared by any config
     tasks = {'A': T('a'), 'B': T('b', inputs=[bc('A')])}
     out.append(_mounted(tasks, 'root', 'undeclared-class', tasks_list=['B']))
+    # ... also when another task with the same short name (in a group) IS declared: a class reference means that class
+    tasks = {'Feat': T('features'), 'FeatV2': T('features', 'v2'), 'Model': T('model', inputs=[bc('Feat')])}
+    for mount in ('root', 'as_n'):
+        out.append(_mounted(tasks, mount, 'undeclared-class-homonym', tasks_list=['FeatV2', 'Model']))
+        out.append(_mounted(tasks, mount, 'class-homonym-both', tasks_list=['FeatV2', 'Feat', 'Model']))
+    # a config mounted `as e1` / `as e2` that itself PLAINLY uses further files: those belong to e1 / e2 as well
+    tasks = {'D': T('d'), 'M': T('m', inputs=[bc('D')]), 'Top': T('top', inputs=[bn('e1::m'), bn('e2::d')])}
+    for leaf_medium in ('json', 'yaml'):
+        out.append({'name': 'plain-uses-inside-namespace', 'tasks': tasks, 'configs': {
+            'leafd': {'medium': leaf_medium, 'tasks': ['D'], 'values': {}},
+            'leafm': {'medium': 'json', 'tasks': ['M'], 'values': {}},
+            'bundle': {'medium': 'json', 'tasks': [], 'values': {}, 'uses': [{'config': 'leafd'}, {'config': 'leafm'}]},
+            'top': {'medium': 'json', 'tasks': ['Top'], 'values': {}, 'uses': [{'config': 'bundle', 'as': 'e1'}, {'config': 'bundle', 'as': 'e2'}]}}, 'root': 'top', 'variants': {'v': []}})
     tasks = {'A': T('a'), 'B': T('b', inputs=[{'how': 'opt_class', 'ref': 'A', 'default': 1}])}
     out.append(_mounted(tasks, 'as_n', 'undeclared-optional', tasks_list=['B']))
     return out
